@@ -105,7 +105,15 @@ SetExpression(u, d) ==
   ELSE UNCHANGED svars
 EditAllowed(u) == u \in Ids /\ (u \in DOMAIN trk => trk[u].allowEdit)
 SetConvention(u, q) == IF EditAllowed(u) /\ cst[u].conv # q THEN cst' = [cst EXCEPT ![u].conv = q] /\ UNCHANGED <<order, trk>> ELSE UNCHANGED svars
-SetTerm(u, q)       == IF EditAllowed(u) /\ cst[u].term # q THEN cst' = [cst EXCEPT ![u].term = q] /\ UNCHANGED <<order, trk>> ELSE UNCHANGED svars
+\* manual word forms of a term: an optional field "forms" (word form -> text).  A new raw term discards them; renaming keeps them.
+FormsOf(c) == IF "forms" \in DOMAIN c THEN c.forms ELSE <<>>
+WithForms(c, fm) == [f \in (DOMAIN c) \cup {"forms"} |-> IF f = "forms" THEN fm ELSE c[f]]
+WithoutForms(c) == [f \in (DOMAIN c) \ {"forms"} |-> c[f]]
+SetTerm(u, q)       == IF EditAllowed(u) /\ cst[u].term # q THEN cst' = [cst EXCEPT ![u] = WithoutForms([@ EXCEPT !.term = q])] /\ UNCHANGED <<order, trk>> ELSE UNCHANGED svars
+SetTermForm(u, form, txt) ==
+  IF EditAllowed(u) /\ ~(form \in DOMAIN FormsOf(cst[u]) /\ FormsOf(cst[u])[form] = txt)
+  THEN cst' = [cst EXCEPT ![u] = WithForms(@, (form :> txt) @@ FormsOf(@))] /\ UNCHANGED <<order, trk>>
+  ELSE UNCHANGED svars
 SetText(u, q)       == IF EditAllowed(u) /\ cst[u].text # q THEN cst' = [cst EXCEPT ![u].text = q] /\ UNCHANGED <<order, trk>> ELSE UNCHANGED svars
 
 \* MoveBefore(what, position): position p in 1..Len+1 (Len+1 = end).  The decision rule is the implementation's.
